@@ -52,6 +52,12 @@ class Model:
             return PyTuple([("pos", it[1]), ("elem", it[1])])
         if isinstance(it, tuple) and it and it[0] == "zip":
             return PyTuple([("elem", x) for x in it[1]])
+        # law: iterating [f(y) for y in L] yields f(y) for the elements y of L (same order)
+        if isinstance(it, tuple) and len(it) == 5 and it[0] == "comp" and it[1] == "list" and it[4] == T.TRUE:
+            body = it[2]
+            if isinstance(body, tuple) and body and body[0] == "tuple" and len(body) == 2 and isinstance(body[1], tuple):
+                return PyTuple(list(body[1]))
+            return body
         return ("elem", it_t)
 
     def unpack_item(self, v: Any, base: T.Term, i: int, n: int) -> Any:
